@@ -27,22 +27,26 @@ import tempfile
 import warnings
 from fractions import Fraction
 
-from common import VERIF, Check, import_repo, rat, run_check, run_driver
+from common import VERIF, Check, call, import_repo, rat, run_check, run_driver
 
 warnings.filterwarnings("ignore")
 
 THEOREMS = [
     "SleapVerif.C18.shape_erase",
     "SleapVerif.C18.centroidOf_scale",
-    "SleapVerif.C18.frameworks_agree_scale1_partial",
-    "SleapVerif.C18.frameworks_agree_any_scale_partial",
+    "SleapVerif.C18.frameworks_agree_scale1",
+    "SleapVerif.C18.frameworks_agree_any_scale",
     "SleapVerif.C18.np_stream_pixels_equal",
+    "SleapVerif.C18.sample_count_agree",
     "SleapVerif.C18.targets_from_same_points",
     "SleapVerif.C18.targets_agree_scale1",
     "SleapVerif.C18.targets_agree_any_scale",
     "SleapVerif.C18.cfg_max_override_counterexample",
-    "SleapVerif.C18.frameworks_agree_scale1_full_false",
+    "SleapVerif.C18.cfg_max_override_repaired",
     "SleapVerif.C18.single_maxinst_counterexample",
+    "SleapVerif.C18.single_maxinst_repaired",
+    "SleapVerif.C18.sample_count_counterexample",
+    "SleapVerif.C18.centered_rank_differs",
     "SleapVerif.C18.centered_numInstances_counterexample",
     "SleapVerif.C18.centered_scale_differs",
     "SleapVerif.C18.centroid_instances_differ",
@@ -180,7 +184,7 @@ def stubbed_litdata(items):
 
 
 def data_config(cfg):
-    mh, mw = cfg["cfg_max"] if cfg["cfg_max"] else (None, None)
+    mh, mw = cfg["cfg_max"] if cfg["cfg_max"] else (None, None)   # each component may be None on its own
     return E["DictConfig"]({"user_instances_only": True,
                             "preprocessing": {"is_rgb": cfg["is_rgb"], "max_height": mh, "max_width": mw,
                                               "scale": cfg["scale"], "crop_hw": list(cfg["crop"])},
@@ -188,7 +192,8 @@ def data_config(cfg):
 
 
 def run_frameworks(spec, cfg, tmp):
-    """→ {fw: [sample dict per index]}, glue values (max_hw, max_instances)."""
+    """→ {fw: [sample dict per index]}, glue values (max_hw, max_instances), and per framework the
+    number of samples each labelled frame gave (`"raise:<Class>"` where the chunk function raised)."""
     cd, gc, sd, prov, DC = E["cd"], E["gc"], E["sd"], E["prov"], E["DictConfig"]
     mt, scale, ms = cfg["mt"], cfg["scale"], cfg["max_stride"]
     head = DC({"sigma": cfg["cm"][0], "output_stride": cfg["cm"][1], "anchor_part": cfg["anchor"]})
@@ -196,7 +201,7 @@ def run_frameworks(spec, cfg, tmp):
     probe = build_labels(spec)
     max_hw = prov.get_max_height_width(probe)          # what ModelTrainer hands to every framework
     max_inst = prov.get_max_instances(probe)
-    out = {}
+    out, counts = {}, {}
     for fw in ("mem", "np"):
         kw = dict(max_stride=ms, scale=scale, apply_aug=False, max_hw=max_hw, np_chunks=(fw == "np"),
                   np_chunks_path=f"{tmp}/{fw}")
@@ -210,25 +215,35 @@ def run_frameworks(spec, cfg, tmp):
         else:
             ds = cd.CenteredInstanceDataset(lb, data_config(cfg), tuple(cfg["crop"]), head, **kw)
         out[fw] = [ds[i] for i in range(len(ds))]
+        owners = [t[0] for t in ds.instance_idx_list] if mt == "centered" else list(ds.lf_idx_list)
+        counts[fw] = [owners.count(fi) for fi in range(len(spec["frames"]))]
     lb = build_labels(spec)
     dc = data_config(cfg)
     items = []
-    for lf in lb:
-        x = (lf, lb.videos.index(lf.video))
+    counts["stream"] = []
+
+    def chunk(x):
         if mt == "single":
-            items.append(gc.single_instance_data_chunks(x, data_config=dc, max_hw=max_hw,
-                                                        user_instances_only=True, scale=scale))
-        elif mt == "bottomup":
-            items.append(gc.bottomup_data_chunks(x, data_config=dc, max_instances=max_inst, max_hw=max_hw,
-                                                 user_instances_only=True, scale=scale))
-        elif mt == "centroid":
-            items.append(gc.centroid_data_chunks(x, data_config=dc, max_instances=max_inst,
-                                                 anchor_ind=cfg["anchor"], max_hw=max_hw,
-                                                 user_instances_only=True, scale=scale))
+            return [gc.single_instance_data_chunks(x, data_config=dc, max_hw=max_hw,
+                                                   user_instances_only=True, scale=scale)]
+        if mt == "bottomup":
+            return [gc.bottomup_data_chunks(x, data_config=dc, max_instances=max_inst, max_hw=max_hw,
+                                            user_instances_only=True, scale=scale)]
+        if mt == "centroid":
+            return [gc.centroid_data_chunks(x, data_config=dc, max_instances=max_inst,
+                                            anchor_ind=cfg["anchor"], max_hw=max_hw,
+                                            user_instances_only=True, scale=scale)]
+        return list(gc.centered_instance_data_chunks(x, data_config=dc, max_instances=max_inst,
+                                                     crop_size=tuple(cfg["crop"]), anchor_ind=cfg["anchor"],
+                                                     max_hw=max_hw, user_instances_only=True, scale=scale))
+
+    for lf in lb:   # the inputs `get_bin_files.py` hands to `ld.optimize`: every labelled frame
+        r = call(chunk, (lf, lb.videos.index(lf.video)))
+        if r[0] == "raise":
+            counts["stream"].append(f"raise:{r[1]}")
         else:
-            items += list(gc.centered_instance_data_chunks(x, data_config=dc, max_instances=max_inst,
-                                                           crop_size=tuple(cfg["crop"]), anchor_ind=cfg["anchor"],
-                                                           max_hw=max_hw, user_instances_only=True, scale=scale))
+            counts["stream"].append(len(r[1]))
+            items += r[1]
     with stubbed_litdata(items):
         common = dict(confmap_head=head, max_stride=ms, apply_aug=False, augmentation_config=None)
         if mt == "single":
@@ -240,7 +255,7 @@ def run_frameworks(spec, cfg, tmp):
         else:
             ds = sd.CenteredInstanceStreamingDataset(crop_hw=tuple(cfg["crop"]), input_scale=scale, **common)
         out["stream"] = [ds[i] for i in range(len(items))]
-    return out, max_hw, max_inst
+    return out, max_hw, max_inst, counts
 
 
 def canon(mt, s):
@@ -525,7 +540,11 @@ def gen_points(rng, h, w, n_nodes, p_missing):
     return pts
 
 
-def gen_case(rng, mt=None, scale=None, excluded=False):
+def gen_case(rng, mt=None, scale=None, cfg_override=False, extra=None):
+    """`cfg_override`: the config sets max_height and/or max_width (each component on its own);
+    `extra="single_extra"`: single-animal labels in which one frame carries a second, empty instance
+    (get_max_instances = 2; region of F-C18b); `extra="all_empty"`: one more labelled frame whose
+    instances are all empty (region of F-C18c)."""
     mt = mt or rng.choice(MTS)
     n_nodes = rng.choice([2, 3])
     edges = [(i, i + 1) for i in range(n_nodes - 1)]
@@ -538,7 +557,7 @@ def gen_case(rng, mt=None, scale=None, excluded=False):
     if nv == 2:
         sizes.append(rng.choice([(big[0] // 2, big[1] // 2), (big[0] * 5 // 8, big[1] * 5 // 8),
                                  (big[0] * 3 // 4, big[1] * 3 // 4 - 3), (big[0] - 7, big[1])]))
-    c = rng.choice([1, 1, 3])
+    c = rng.choice([1, 3])
     videos = [{"h": s[0], "w": s[1], "c": c, "n": 2, "seed": rng.randrange(10 ** 6)} for s in sizes]
     frames = []
     for vi in range(nv):
@@ -556,29 +575,47 @@ def gen_case(rng, mt=None, scale=None, excluded=False):
             if mt != "single" and rng.random() < 0.2:
                 insts.insert(rng.randrange(len(insts) + 1), [None] * n_nodes)   # an empty instance
             frames.append({"video": vi, "t": t, "insts": insts})
+    if extra == "single_extra":
+        fr = rng.choice(frames)
+        fr["insts"].insert(rng.randrange(2), [None] * n_nodes)
+    if extra == "all_empty":
+        vi = rng.randrange(nv)
+        used = [f["t"] for f in frames if f["video"] == vi]
+        t = min(set(range(3)) - set(used))
+        for v in videos:
+            v["n"] = 3
+        frames.insert(rng.randrange(len(frames) + 1),
+                      {"video": vi, "t": t, "insts": [[None] * n_nodes] * rng.choice([1, 2])})
     spec = {"n_nodes": n_nodes, "edges": edges, "videos": videos, "frames": frames}
     if scale is None:
         scale = rng.choice([1.0, 1.0, 1.0, 0.5, 0.5, 0.25, 0.75, 1.5, 2.0, 0.625, 1.25])
-    cfg = {"mt": mt, "is_rgb": rng.random() < 0.3, "scale": scale,
+    cfg = {"mt": mt, "is_rgb": rng.random() < 0.5, "scale": scale,
            "max_stride": rng.choice([1, 2, 8, 16, 16, 32]),
            "crop": rng.choice([(32, 32), (48, 48), (64, 64), (40, 56), (47, 47), (24, 24)]),
            "anchor": rng.choice([None, 0, 0, 1]),
            "cm": (rng.choice([1.5, 2.5, 1.0]), rng.choice([1, 2, 2, 4])),
            "paf": (rng.choice([4.0, 2.0, 1.5]), rng.choice([2, 4, 4, 8])),
            "cfg_max": None}
-    if excluded:
+    if cfg_override:
         H, W = max(s[0] for s in sizes), max(s[1] for s in sizes)
-        cfg["cfg_max"] = rng.choice([(H + 24, W + 40), (H, W + 16), (H * 2, W * 2), (H + 8, W)])
+        cfg["cfg_max"] = rng.choice([(H + 24, W + 40), (H, W + 16), (H * 2, W * 2), (H + 8, W),
+                                     (None, W + 32), (H + 16, None), (None, W * 2), (H * 2, None)])
     return spec, cfg
 
 
-def model_line(fw, spec, cfg, fr, k, max_hw, max_inst, alias):
+def target_hw(cfg, max_hw):
+    """What every framework size-matches to: the config value where set, else `max_hw` (per component)."""
+    ch, cw = cfg["cfg_max"] if cfg["cfg_max"] else (None, None)
+    return (max_hw[0] if ch is None else ch, max_hw[1] if cw is None else cw)
+
+
+def model_line(fw, spec, cfg, fr, k, max_hw, max_inst, alias, single_one):
     v = spec["videos"][fr["video"]]
     o = lambda x: "-1" if x is None else str(x)
     cm_h, cm_w = cfg["cfg_max"] if cfg["cfg_max"] else (None, None)
     toks = ["sample", fw, cfg["mt"], "1" if cfg["is_rgb"] else "0", str(max_hw[0]), str(max_hw[1]),
             o(cm_h), o(cm_w), rat(float(cfg["scale"])), str(cfg["max_stride"]), str(cfg["crop"][0]),
-            str(cfg["crop"][1]), o(cfg["anchor"]), str(max_inst), "1" if alias else "0",
+            str(cfg["crop"][1]), o(cfg["anchor"]), str(max_inst), "1" if alias else "0", "1" if single_one else "0",
             rat(float(cfg["cm"][0])), str(cfg["cm"][1]), rat(float(cfg["paf"][0])), str(cfg["paf"][1]),
             str(len(spec["edges"]))] + [f"{u} {w}" for u, w in spec["edges"]]
     toks += [str(v["h"]), str(v["w"]), str(v["c"]), str(k), str(len(fr["insts"]))]
@@ -596,14 +633,14 @@ def sample_index(spec, mt):
         ne = sum(1 for p in fr["insts"] if any(q is not None for q in p))
         if mt == "centered":
             out += [(fr, k) for k in range(ne)]
-        else:
+        elif ne:
             out.append((fr, 0))
     return out
 
 
 def knife_edge(spec, cfg, max_hw):
     """`round()` of a size exactly on .5, or `int()` of a size whose product is not exact."""
-    targets = [max_hw] + ([cfg["cfg_max"]] if cfg["cfg_max"] else [])
+    targets = [target_hw(cfg, max_hw)]
     for v in spec["videos"]:
         for mh, mw in targets:
             if (v["h"], v["w"]) == (mh, mw):
@@ -617,21 +654,27 @@ def knife_edge(spec, cfg, max_hw):
 
 def covered(cfg):
     """The region the property (and the theorems) speak about."""
-    return cfg["cfg_max"] is None and (cfg["scale"] == 1.0 or cfg["mt"] != "centered")
+    return cfg["scale"] == 1.0 or cfg["mt"] != "centered"
 
 
 def eff_is_exact(spec, cfg, max_hw):
     ok = is_dyadic(Fraction(float(cfg["scale"])))
+    th, tw = target_hw(cfg, max_hw)
     for v in spec["videos"]:
-        if (v["h"], v["w"]) != tuple(max_hw):
-            ok = ok and is_dyadic(min(Fraction(max_hw[0], v["h"]), Fraction(max_hw[1], v["w"])))
+        if (v["h"], v["w"]) != (th, tw):
+            ok = ok and is_dyadic(min(Fraction(th, v["h"]), Fraction(tw, v["w"])))
     return ok
 
 
-def signatures(spec, cfg, max_hw):
+def signatures(spec, cfg, max_hw, max_inst, frame=None):
+    """Structural predicates of a failing case, matched against the `known` entries."""
     sig = []
-    if cfg["cfg_max"] is not None and tuple(cfg["cfg_max"]) != tuple(max_hw):
-        sig.append("cfg_max_hw_differs_from_labels_max_hw")
+    if cfg["cfg_max"] is not None and target_hw(cfg, max_hw) != tuple(max_hw):
+        sig.append("cfg_max_hw_differs_from_labels_max_hw")          # F-C18a (fixed: suppresses nothing)
+    if cfg["mt"] == "single" and max_inst != 1:
+        sig.append("single_labels_max_instances_ne_1")                # F-C18b
+    if frame is not None and all(all(q is None for q in p) for p in frame["insts"]):
+        sig.append("frame_with_only_empty_instances")                 # F-C18c
     return sig
 
 
@@ -641,35 +684,50 @@ def run_case(chk, spec, cfg, alias, tmp, tag, do_model=True):
     torch = E["torch"]
     sub = tempfile.mkdtemp(dir=tmp)
     try:
-        fwout, max_hw, max_inst = run_frameworks(spec, cfg, sub)
+        fwout, max_hw, max_inst, counts = run_frameworks(spec, cfg, sub)
     finally:
         shutil.rmtree(sub, ignore_errors=True)
     if knife_edge(spec, cfg, max_hw):
         chk.knife_edges += 1
         return 0, []
-    idx = sample_index(spec, cfg["mt"])
     mt = cfg["mt"]
     case = {"spec": spec, "cfg": cfg}
+    all_fails = []
+    # ---- how many samples each labelled frame gives (model: sampleCount; property: the same everywhere)
+    clines = [f"count {fw} {mt} {insts_line(fr['insts'])}" for fr in spec["frames"] for fw in FWS]
+    cmodel = iter(run_driver("C18.lean", clines)) if do_model else None
+    for fi, fr in enumerate(spec["frames"]):
+        for fw in FWS:
+            got = counts[fw][fi]
+            got_s = "raise" if isinstance(got, str) else f"ok {got}"
+            if do_model:
+                want = next(cmodel)
+                if want != got_s:
+                    chk.disagree(f"sampleCount {fw} {mt} == real framework", {**case, "frame": fi}, f"{got_s} ({got})", want)
+        if not (counts["mem"][fi] == counts["np"][fi] == counts["stream"][fi]):
+            msg = f"frame {fi}: samples per framework {dict((f, counts[f][fi]) for f in FWS)}"
+            all_fails.append(msg)
+            chk.fail(f"C18 fails ({mt}): {msg}", {**case, "frame": fi}, {f: counts[f][fi] for f in FWS},
+                     signatures(spec, cfg, max_hw, max_inst, fr))
+        chk.tag("frame_counts_checked")
+    idx = sample_index(spec, mt)
     for fw in FWS:
         if len(fwout[fw]) != len(idx):
             chk.disagree("number of samples per framework", case, {f: len(fwout[f]) for f in FWS}, len(idx))
             chk.fail(f"framework {fw} yields {len(fwout[fw])} samples, expected {len(idx)}", case,
-                     {f: len(fwout[f]) for f in FWS}, signatures(spec, cfg, max_hw))
+                     {f: len(fwout[f]) for f in FWS}, signatures(spec, cfg, max_hw, max_inst))
             return 0, ["sample count"]
     in_region = covered(cfg)
-    excluded_cfg = cfg["cfg_max"] is not None and tuple(cfg["cfg_max"]) != tuple(max_hw)
-    exact = eff_is_exact(spec, cfg, max_hw) and not excluded_cfg
-    mag = 2.0 * max(list(max_hw) + list(cfg["cfg_max"] or [])) * max(1.0, float(cfg["scale"]))
+    exact = eff_is_exact(spec, cfg, max_hw)
+    mag = 2.0 * max(target_hw(cfg, max_hw)) * max(1.0, float(cfg["scale"]))
+    single_one = E["single_one"]
     lines, keys = [], []
     for i, (fr, k) in enumerate(idx):
         for fw in FWS:
-            if do_model and not (excluded_cfg and fw != "stream"):
-                # with a config max_height/max_width override only the chunk path is tied to the model:
-                # the torch datasets' behaviour there is finding F-C18a (changes when the fix lands)
-                lines.append(model_line(fw, spec, cfg, fr, k, max_hw, max_inst, alias))
+            if do_model:
+                lines.append(model_line(fw, spec, cfg, fr, k, max_hw, max_inst, alias, single_one))
                 keys.append((i, fw))
     models = dict(zip(keys, run_driver("C18.lean", lines))) if lines else {}
-    all_fails = []
     for i, (fr, k) in enumerate(idx):
         raw = frame_image(spec, fr)
         cs = {fw: canon(mt, fwout[fw][i]) for fw in FWS}
@@ -700,18 +758,20 @@ def run_case(chk, spec, cfg, alias, tmp, tag, do_model=True):
                     chk.disagree("hypothesis padStride∘quant8 = quant8∘padStride", {**case, "index": i},
                                  float((a_ - b_).abs().max()), 0.0)
                 chk.tag("hyp_pad_quant_commute_checked")
-        fails = oracle(mt, cs, has_empty, mag) if (in_region or excluded_cfg) else []
+        fails = oracle(mt, cs, has_empty, mag) if in_region else []
         if fails:
             all_fails += fails
             chk.fail(f"C18 fails ({mt}, scale {cfg['scale']}): " + "; ".join(fails[:3]),
-                     {**case, "index": i, "k": k}, fails[:6], signatures(spec, cfg, max_hw))
+                     {**case, "index": i, "k": k}, fails[:6], signatures(spec, cfg, max_hw, max_inst))
         nz = sum(1 for p in fr["insts"] for q in p if q is not None)
         chk.case((tag, mt, cfg["scale"], cfg["max_stride"], cfg["is_rgb"], json.dumps(fr["insts"]), k) if nz else None,
                  {"mt": mt, "cfg": cfg, "frame": fr, "k": k,
                   "model_mem": models.get((i, "mem"), "")[:300]},
                  tags=[f"mt:{mt}", f"scale:{cfg['scale']}", "covered" if in_region else "outside_statement",
                        f"region:{tag}", "eff_exact" if exact else "eff_tolerance",
-                       f"disagree:{bad}"])
+                       f"disagree:{bad}", f"is_rgb:{cfg['is_rgb']}/channels:{spec['videos'][0]['c']}",
+                       f"videos:{len(spec['videos'])}" + ("(different sizes)" if len({(v['h'], v['w']) for v in spec['videos']}) > 1 else ""),
+                       "cfg_max:" + ("none" if not cfg["cfg_max"] else "both" if None not in cfg["cfg_max"] else "one component")])
     return len(idx), all_fails
 
 
@@ -962,14 +1022,18 @@ def check_defaults(chk):
 
 
 # ------------------------------------------------------------------ known finding F-C18a
-def replay_cfg_max(chk, alias, tmp):
-    ent = next((f for f in chk.known if f["id"] == "F-C18a"), None)
-    if ent is None:
-        return
-    w = ent["witness"]
-    n, fails = run_case(chk, w["spec"], w["cfg"], alias, tmp, "known_F-C18a", do_model=False)
-    # run_case routed the failure through chk.fail with the signature; report the replay as well
-    chk.known_replay("F-C18a", still_fails=bool(fails), detail="frameworks agree under a config max_height/max_width override")
+def replay_findings(chk, alias, tmp):
+    """Replays the witness of every C18 entry.  F-C18a is `fixed`: if the frameworks disagree on its
+    witness again that is a regression (VIOLATION, nothing is suppressed).  `known` entries print
+    KNOWN-FINDING while they still reproduce."""
+    for ent in chk.known:
+        w = ent.get("witness") or {}
+        if "spec" not in w:
+            continue
+        n, fails = run_case(chk, w["spec"], w["cfg"], alias, tmp, f"witness_{ent['id']}")
+        chk.known_replay(ent["id"], still_fails=bool(fails),
+                         detail="the three frameworks agree on the witness")
+        chk.tag(f"replayed:{ent['id']}:{'fails' if fails else 'agrees'}")
 
 
 def probe_alias():
@@ -978,6 +1042,20 @@ def probe_alias():
     x = torch.tensor([[[[float("nan"), float("nan")], [4.0, 6.0]]]])
     E["ic"].generate_centroids(x, anchor_ind=0)
     return not bool(torch.isnan(x[0, 0, 0]).any())
+
+
+def probe_single_one(tmp):
+    """Does `SingleInstanceDataset` hand `max_instances = 1` to `process_lf` (F-C18b repaired)?  Observed
+    on the real class: labels whose only frame has one animal and one empty instance."""
+    spec = {"n_nodes": 2, "edges": [[0, 1]], "videos": [{"h": 32, "w": 32, "c": 1, "n": 1, "seed": 1}],
+            "frames": [{"video": 0, "t": 0, "insts": [[[8.0, 8.0], [16.0, 12.0]], [None, None]]}]}
+    cfg = {"mt": "single", "is_rgb": False, "scale": 1.0, "max_stride": 1, "crop": (16, 16), "anchor": None,
+           "cm": (1.5, 2), "paf": (4.0, 4), "cfg_max": None}
+    DC = E["DictConfig"]
+    ds = E["cd"].SingleInstanceDataset(build_labels(spec), data_config(cfg),
+                                       DC({"sigma": 1.5, "output_stride": 2, "anchor_part": None}),
+                                       max_stride=1, scale=1.0, max_hw=(32, 32))
+    return int(ds[0]["instances"].shape[1]) == 1
 
 
 def main(chk: Check):
@@ -990,7 +1068,9 @@ def main(chk: Check):
     chk.extra["generate_centroids_writes_through"] = alias
     tmp = tempfile.mkdtemp(prefix="verif_c18_")
     try:
-        replay_cfg_max(chk, alias, tmp)
+        E["single_one"] = probe_single_one(tmp)
+        chk.extra["single_instance_dataset_max_instances_is_1"] = E["single_one"]
+        replay_findings(chk, alias, tmp)
         # corpus first
         cdir = VERIF / "corpus" / "C18"
         if cdir.is_dir():
@@ -998,27 +1078,32 @@ def main(chk: Check):
                 c = json.loads(f.read_text())
                 run_case(chk, c["spec"], c["cfg"], alias, tmp, "corpus")
         rng = chk.rng
-        # (1) the region the statement covers: every model type at scale 1, three of them at any scale
+        # (1) the region the statement covers: every model type at scale 1, three of them at any scale;
+        #     every other case sets max_height and/or max_width in the config (covered since 3fdd300)
         for mt in MTS:
-            for _ in range(chk.n(5, 40)):
-                run_case(chk, *gen_case(rng, mt=mt, scale=1.0), alias, tmp, "scale1")
+            for j in range(chk.n(5, 40)):
+                run_case(chk, *gen_case(rng, mt=mt, scale=1.0, cfg_override=(j % 2 == 1)), alias, tmp, "scale1")
         for mt in ("single", "centroid", "bottomup"):
-            for _ in range(chk.n(6, 50)):
+            for j in range(chk.n(5, 50)):
                 sc = rng.choice([0.5, 0.25, 0.75, 1.5, 2.0, 0.625, 1.25])
-                run_case(chk, *gen_case(rng, mt=mt, scale=sc), alias, tmp, "any_scale")
+                run_case(chk, *gen_case(rng, mt=mt, scale=sc, cfg_override=(j % 3 == 2)), alias, tmp, "any_scale")
         # (2) outside the statement: centred instance at scale != 1 — correspondence only (the model says
         #     what each framework does there; no agreement is claimed or checked)
         for _ in range(chk.n(4, 30)):
             sc = rng.choice([0.5, 0.75, 1.5, 2.0])
             run_case(chk, *gen_case(rng, mt="centered", scale=sc), alias, tmp, "centered_scaled")
-        # (3) the region `…_partial` excludes (config max_height/max_width override): oracle search;
-        #     failures carry the signature of F-C18a
+        # (3) regions of the `known` findings: model correspondence (the model says what each framework
+        #     does there) + oracle; failures must carry the finding's signature to be accepted
         n_ex = 0
-        for _ in range(chk.n(4, 30)):
-            spec, cfg = gen_case(rng, excluded=True)
-            if cfg["mt"] == "centered" and cfg["scale"] != 1.0:
-                cfg["scale"] = 1.0
-            k, _ = run_case(chk, spec, cfg, alias, tmp, "cfg_max_override")
+        for _ in range(chk.n(3, 20)):
+            sc = rng.choice([1.0, 1.0, 0.5, 1.5])
+            k, _ = run_case(chk, *gen_case(rng, mt="single", scale=sc, extra="single_extra"), alias, tmp,
+                            "F-C18b_single_extra_instance")
+            n_ex += k
+        for _ in range(chk.n(3, 20)):
+            mt = rng.choice(MTS)
+            k, _ = run_case(chk, *gen_case(rng, mt=mt, scale=1.0, extra="all_empty"), alias, tmp,
+                            "F-C18c_all_empty_frame")
             n_ex += k
         chk.extra["excluded_region_cases"] = n_ex
         # (4) DataPipe blocks
@@ -1034,6 +1119,7 @@ def replay(chk: Check, payload):
     alias = probe_alias()
     tmp = tempfile.mkdtemp(prefix="verif_c18_")
     try:
+        E["single_one"] = probe_single_one(tmp)
         if "spec" in case:
             n, fails = run_case(chk, case["spec"], case["cfg"], alias, tmp, "replay")
             print(f"replay: {n} samples, oracle failures: {fails[:4]}")
@@ -1060,15 +1146,19 @@ if __name__ == "__main__":
             "float32 evaluation of eff_scale·scale products stays within 2e-6 relative + 1e-6·(frame size·scale) absolute "
             "(measured); compared exactly on dyadic cases",
         ],
-        rule="in-memory sio.Labels (1-2 videos of different sizes, 1-4 frames, 1-3 instances with missing nodes and "
-             "empty instances, textured uint8 frames incl. a window of the asset frame) x model type x scale in "
-             "{1, .25, .5, .625, .75, 1.25, 1.5, 2} x max_stride x crop size x anchor x is_rgb x head strides/sigmas; "
+        rule="in-memory sio.Labels (1-2 videos of different sizes in one labels object, 3 in the corpus; 1-4 frames, 1-3 "
+             "instances with missing nodes and empty instances, textured 1- or 3-channel uint8 frames incl. a window of the "
+             "asset frame) x model type x scale in {1, .25, .5, .625, .75, 1.25, 1.5, 2} x max_stride x crop size x anchor "
+             "x is_rgb in {False, True} (all four channel/is_rgb combinations) x config max_height/max_width (unset, both, "
+             "one component) x head strides/sigmas; regions of the known findings (single-animal labels with a second "
+             "empty instance; a frame with only empty instances); "
              "distinct = distinct (region, model type, scale, stride, is_rgb, instances, k); trivial = no visible point; "
              "blocks: distinct driver lines",
         assumptions=[
             "augmentation disabled (apply_aug=False): augmentation is random and not part of the statement",
-            "every frame has at least one non-empty user instance (process_lf raises on none; torch datasets skip such frames)",
-            "single-instance labels have exactly one instance per frame (single_instance_data_chunks hard-codes max_instances=1)",
+            "outside the F-C18c region every frame has at least one non-empty user instance; outside the F-C18b region "
+            "single-instance labels have exactly one instance per frame",
+            "the chunk functions are applied to every labelled frame, as training/get_bin_files.py does",
             "sizes whose size-matched target falls exactly on .5 before round() are knife-edges (skipped, counted)",
         ],
     )
